@@ -25,6 +25,9 @@ import (
 const (
 	findProposalTotal = "C17-proposal-part-total-unbounded-alloc"
 	findBitArray      = "C17-bitarray-size-mismatch-kills-gossip-routine"
+	// precommit for InitialHeight-1 while the node waits in NewHeight of the chain's first height: LastCommit is a nil
+	// *VoteSet there and addVote calls AddVote on it
+	findFirstHeightPrecommit = "C17-precommit-before-first-height"
 )
 
 // hmsg is one generated message for a consensus channel.
@@ -50,7 +53,8 @@ type consGen struct {
 
 func (g *consGen) height(label string) int64 {
 	ph, _, _ := g.prs()
-	return rapid.SampledFrom([]int64{g.e.h, g.e.h, g.e.h, ph, ph, g.e.h - 1, g.e.h + 1, g.e.h - 2, 0, 1, math.MaxInt64, math.MaxInt64 - 1}).Draw(g.t, label)
+	ih := g.e.chain.Spec.InitialHeight
+	return rapid.SampledFrom([]int64{g.e.h, g.e.h, g.e.h, ph, ph, g.e.h - 1, g.e.h - 1, g.e.h + 1, g.e.h - 2, ih - 1, ih, 0, 1, math.MaxInt64, math.MaxInt64 - 1}).Draw(g.t, label)
 }
 
 func (g *consGen) round(label string) int32 {
@@ -352,7 +356,14 @@ func (g *consGen) gen() hmsg {
 			}
 		}
 		v := e.signedVote(vi, typ, g.round("r"), bid, false)
-		v.Height = g.height("h")
+		// votes are judged relative to the node: its height, the one below (last-commit votes while the node waits in
+		// NewHeight), the chain's initial height and the one below that, far away
+		ih := e.chain.Spec.InitialHeight
+		v.Height = rapid.SampledFrom([]int64{e.h, e.h, e.h, e.h - 1, e.h - 1, e.h - 1, ih - 1, ih, 0, e.h + 1, e.h - 2, math.MaxInt64}).Draw(t, "voteh")
+		if lib.IsKnown(findFirstHeightPrecommit) && e.h == e.chain.Spec.InitialHeight && v.Type == tmproto.PrecommitType && v.Height+1 == e.h {
+			lib.ExcludedByKnown(findFirstHeightPrecommit) // listed known finding: excluded by construction
+			v.Height = e.h
+		}
 		switch rapid.SampledFrom([]string{"outsider-sig", "garbage-sig", "idx-out", "idx-max", "addr-unknown", "idx-addr-mismatch"}).Draw(t, "votebad") {
 		case "garbage-sig":
 			v.Signature = fill(rapid.Uint64().Draw(t, "sigseed"), 64)
@@ -467,8 +478,10 @@ func TestHostileConsensus(t *testing.T) {
 		// mostly 4 validators (1-word bit arrays); sometimes 70 (2 words), so that peer arrays can also have FEWER words
 		nVals := rapid.SampledFrom([]int{4, 4, 4, 4, 4, 4, 4, 70}).Draw(t, "nvals")
 		nodeVal := rapid.SampledFrom([]int{-1, 0, 1, 2, 3}).Draw(t, "nodeval")
-		nBlocks := rapid.IntRange(1, 3).Draw(t, "blocks")
-		e := newConsEnv(t, nVals, nBlocks, nodeVal, 1)
+		// chain length 0 = a fresh chain: the node sits at the chain's FIRST height (no last commit, no stored block)
+		nBlocks := rapid.SampledFrom([]int{0, 0, 1, 2, 3}).Draw(t, "blocks")
+		initialHeight := rapid.SampledFrom([]int64{1, 1, 1, 7, 1000}).Draw(t, "initialheight")
+		e := newConsEnv(t, nVals, nBlocks, nodeVal, initialHeight)
 		defer func() {
 			e.closeChecked()
 			if !wedged() {
@@ -508,7 +521,8 @@ func TestHostileConsensus(t *testing.T) {
 			}
 			// (1) the consensus state machine must survive
 			if !okAlive {
-				t.Fatalf("consensus receive routine died (CONSENSUS FAILURE) after %s from a peer: the node is wedged", m.kind)
+				t.Fatalf("CONSENSUS FAILURE: the consensus receive routine died — consensus of this node has halted — after %s from a peer (node state %s, chain length %d, initial height %d, node height %d); messages so far %v",
+					m.kind, state, nBlocks, initialHeight, e.h, kinds)
 			}
 			// (2) buffering bound
 			if o.alloc > allocBound(consMaxMsgSize) {
@@ -560,7 +574,8 @@ func TestHostileConsensus(t *testing.T) {
 			t.Fatalf("PROCESS DEATH: a per-peer routine panicked while a well-behaved peer was served after %v\n%s", kinds, pn)
 		}
 		nontrivial := hostileValid > 0
-		lib.Case("TestHostileConsensus", lib.FP(state, pkind, nodeVal, nVals, kinds), nontrivial, "node:"+state, "peer:"+pkind, fmt.Sprintf("validators:%d", nVals))
+		lib.Case("TestHostileConsensus", lib.FP(state, pkind, nodeVal, nVals, nBlocks, initialHeight, kinds), nontrivial, "node:"+state, "peer:"+pkind, fmt.Sprintf("validators:%d", nVals),
+			fmt.Sprintf("first-height:%v", nBlocks == 0), fmt.Sprintf("initial-height:%d", initialHeight))
 		if nontrivial && lib.WantSample("TestHostileConsensus") {
 			lib.Sample("TestHostileConsensus", map[string]interface{}{"node": state, "peer": pkind, "messages": sample})
 		}
